@@ -44,6 +44,7 @@ func init() {
 		"(reflect.Value).Len":           ext۰reflect۰Value۰Len,
 		"(reflect.Value).MapIndex":      ext۰reflect۰Value۰MapIndex,
 		"(reflect.Value).MapKeys":       ext۰reflect۰Value۰MapKeys,
+		"(reflect.Value).Slice":         ext۰reflect۰Value۰Slice,
 		"(reflect.Value).MapRange":      ext۰reflect۰Value۰MapRange,
 		"(*reflect.MapIter).Next":       ext۰reflect۰MapIter۰Next,
 		"(*reflect.MapIter).Key":        ext۰reflect۰MapIter۰Key,
